@@ -26,6 +26,22 @@ def natDigits (n : Nat) : List UInt8 :=
   if n < 10 then [digitByte n] else natDigits (n / 10) ++ [digitByte (n % 10)]
 decreasing_by omega
 
+/-- linear-time digits for the compiled driver (`natDigits` appends at the end: quadratic, slow on the
+4300-digit ints at the `str()` cap); `natDigits_eq_fast` is the proof that the compiler may swap them -/
+def natDigitsGo (n : Nat) (acc : List UInt8) : List UInt8 :=
+  if n < 10 then digitByte n :: acc else natDigitsGo (n / 10) (digitByte (n % 10) :: acc)
+decreasing_by omega
+
+theorem natDigitsGo_eq (n : Nat) : ∀ acc, natDigitsGo n acc = natDigits n ++ acc := by
+  fun_induction natDigits n with
+  | case1 n h => intro acc; rw [natDigitsGo, if_pos h]; rfl
+  | case2 n h ih => intro acc; rw [natDigitsGo, if_neg h, ih]; simp
+
+def natDigitsFast (n : Nat) : List UInt8 := natDigitsGo n []
+
+@[csimp] theorem natDigits_eq_fast : @natDigits = @natDigitsFast := by
+  funext n; rw [natDigitsFast, natDigitsGo_eq]; simp
+
 /-- `str(z).encode()` -/
 def intDigits (z : Int) : List UInt8 :=
   if z < 0 then 45 :: natDigits (-z).toNat else natDigits z.toNat
@@ -45,6 +61,31 @@ mutual
   def encDict : BDict → List UInt8
     | .nil => [101]
     | .cons k v t => encBytes k ++ (enc v ++ encDict t)
+end
+
+/-! ### The int -> decimal conversion cap (Python ≥ 3.11, `sys.get_int_max_str_digits()` = 4300)
+
+`_encode_int` calls `str(integer)`, which raises `ValueError` when the integer has more than 4300
+decimal digits (sign not counted): such ints are *rejected* by `bencode`, not encoded.  `enc` itself is
+total on `Int`; `encodable` is the guard, `encodeE` (below) the guarded encoder that the driver runs. -/
+def intMaxStrDigits : Nat := 4300
+
+/-- `str(z)` succeeds: at most 4300 decimal digits -/
+def intFits (z : Int) : Bool := decide ((natDigits z.natAbs).length ≤ intMaxStrDigits)
+
+mutual
+  /-- every int inside is within the cap -/
+  def encodable : BVal → Bool
+    | .int z => intFits z
+    | .bytes _ => true
+    | .list l => encodableList l
+    | .dict d => encodableDict d
+  def encodableList : BList → Bool
+    | .nil => true
+    | .cons v t => encodable v && encodableList t
+  def encodableDict : BDict → Bool
+    | .nil => true
+    | .cons _ v t => encodable v && encodableDict t
 end
 
 /-! ### Python-side values and `norm` (what `_bencode_to_file` accepts and how) -/
@@ -124,6 +165,20 @@ mutual
           let t' ← normDict t kk
           pure (insertItem kb v' t')
 end
+
+/-- exceptions of `bencode`: `TypeError` (bool/None/float, bad or mixed keys), `ValueError` (an int beyond
+the `str()` digit cap) -/
+inductive EncErr where
+  | type | value
+  deriving DecidableEq, Repr
+
+/-- `bencode(x)`: the bytes, or the exception class.  When a structure contains both a cause of
+TypeError and an over-cap int, the real code raises whichever it meets first while writing (dict keys
+are checked and sorted before any value is written); the model answers `type` — rejected either way. -/
+def encodeE (x : PyVal) : Except EncErr (List UInt8) :=
+  match norm x with
+  | none => .error .type
+  | some v => if encodable v then .ok (enc v) else .error .value
 
 /-- A Python dict given by its item list (insertion order). -/
 def PyDict.ofItems : List (PyKey × PyVal) → PyDict
@@ -211,16 +266,21 @@ def pyIntNat : List UInt8 → Option Nat
       | none => none
     else none
 
-/-- CPython `int(b)` for a bytes-like `b`, base 10: optional ASCII whitespace, optional sign, digits
-with single underscores, optional whitespace.  Leading zeros and `-0` are accepted.  `none` =
-`ValueError`.  Not modelled: the `sys.int_max_str_digits` limit (4300 digits by default). -/
-def pyInt (bs : List UInt8) : Option Int :=
+/-- CPython `int(b)` for a bytes-like `b`, base 10, without the digit cap: optional ASCII whitespace,
+optional sign, digits with single underscores, optional whitespace.  Leading zeros and `-0` are
+accepted.  `none` = `ValueError`. -/
+def pyIntCore (bs : List UInt8) : Option Int :=
   match bs.dropWhile isSpaceB with
   | [] => none
   | c :: t =>
     if c = 45 then (pyIntNat t).map fun n => -(Int.ofNat n)
     else if c = 43 then (pyIntNat t).map Int.ofNat
     else (pyIntNat (c :: t)).map Int.ofNat
+
+/-- `int(b)`: `ValueError` also when the literal has more than 4300 digit characters (leading zeros
+count; sign, underscores and whitespace do not) — the `sys.get_int_max_str_digits()` cap. -/
+def pyInt (bs : List UInt8) : Option Int :=
+  if (bs.filter isDigitB).length > intMaxStrDigits then none else pyIntCore bs
 
 /-- `_decode_buffer`: `int(_readuntil(f, b":"))`, then `f.read(strlen)`. -/
 def decBytes (bs : List UInt8) : Except DErr (DVal × List UInt8) :=
